@@ -40,14 +40,17 @@ def is_deser_self(s):
 
 
 def inline_policy(fn, ev):
+    """everything local is analysed in place (a new private helper changes nothing), except the integer helpers that BIT proves on their
+    own; try_take_varint_usize is the u64/u32 reader plus a lossless cast and is analysed in place"""
     if fn.argc == 0:
         return True
+    if fn.crate != "postcard":
+        return False
     s = fn.impl_self or ""
-    if is_deser_self(s):
-        return True
     if s.startswith("de::deserializer::Deserializer<") and fn.name == "try_take_varint_usize":
         return True
-    return False
+    import vint
+    return not vint.is_helper(fn)
 
 
 class DeCx:
@@ -654,7 +657,7 @@ def check_char_tail(cx, p, evs, vis, s, sz, seen, errkind, tail_is):
             single = True
     for cond, truth, kind in p.pc:
         txt = repr(cond)
-        if "len_utf8" in txt and truth is True and cond[0] == "bin" and cond[1] == "Eq":
+        if "len_utf8" in txt and cond[0] == "bin" and ((cond[1] == "Eq" and truth is True) or (cond[1] == "Ne" and truth is False)):
             single = True
         if "Iterator::count" in txt and cond[0] == "bin" and cond[1] == "Eq" and truth is True:
             single = True
